@@ -377,12 +377,14 @@ int main(int argc, char **argv) {
 	}
 	cases = malloc(sizeof(ccase) * (size_t)(12 + 64 + 8 * L_one + 8));
 
-	// heaviest, best balanced families first; the sharding key differs per family
-	fam_oneshot(L_one, al_one, n_o, L_onehot, shard, nshards);
-	fam_split(L_split, al_split, n_s, (shard + 5) % nshards, nshards);
-	fam_check(L_chk2, L_chk3, L_shaonehot, (shard + 11) % nshards, nshards);
-	fam_tiny(al_tiny, n_t, shard, nshards);
-	fam_sha_tiny(shard, nshards);
+	// heaviest, best balanced families first; the sharding key differs per family.
+	// (h_fail prints at most 200 lines per process: the quota is renewed per family so that one family cannot hide another)
+	h_fail_printed = 0; fam_oneshot(L_one, al_one, n_o, L_onehot, shard, nshards);
+	h_fail_printed = 0; fam_split(L_split, al_split, n_s, (shard + 5) % nshards, nshards);
+	h_fail_printed = 0; fam_check(L_chk2, L_chk3, L_shaonehot, (shard + 11) % nshards, nshards);
+	h_fail_printed = 0; fam_tiny(al_tiny, n_t, shard, nshards);
+	h_fail_printed = 0; fam_sha_tiny(shard, nshards);
+	h_fail_printed = 0;
 	if (thorough && !san) { fam_large(large_t, sizeof large_t / sizeof *large_t, shard, nshards); fam_check_large(large_t, sizeof large_t / sizeof *large_t, (shard + 3) % nshards, nshards); }
 	else { fam_large(large_q, sizeof large_q / sizeof *large_q, shard, nshards); fam_check_large(large_q, sizeof large_q / sizeof *large_q, (shard + 3) % nshards, nshards); }
 	if (thorough && !san && shard == nshards - 1 && !h_expired()) fam_sha_huge();
